@@ -36,10 +36,17 @@ func (g *GenesisState) Validate() error {
 		return core.ErrNilPointer.Wrap("executor genesis state")
 	}
 
+	// NOTE: a repeated ID passes the ID validation but cannot be initialized,
+	// setting an already paused action is an error.
+	seen := make(map[core.ActionID]struct{}, len(g.PausedActionIds))
 	for _, id := range g.PausedActionIds {
 		if err := id.Validate(); err != nil {
 			return err
 		}
+		if _, found := seen[id]; found {
+			return core.ErrAlreadySet.Wrapf("repeated paused action ID %s", id.String())
+		}
+		seen[id] = struct{}{}
 	}
 
 	return nil
